@@ -689,3 +689,162 @@ __CPROVER_assigns(returnRanges->size, __CPROVER_object_whole(returnRanges->data)
         inst='GraphTy abstract; result vector through an out-parameter (rule R-out)',
         says='per-thread unit offsets over a graph: start at the first node, never decrease, end at the last, for every unit count >= 1',
     ))
+
+# ---------------------------------------------------------------------------
+# FileGraph::findIndex / divideByEdge (FileGraph.cpp)
+FG = '''
+struct FileGraph { uint64_t numNodes, numEdges, nodeOffset, edgeOffset; };
+struct FileGraph fg;  /* the object the member functions run on (a global: the int-blasting back end is slow on pointers) */
+'''
+UNITS.append(Unit(
+    name='eb_at', kind='assumed', prelude=[PS, FG],
+    proto='uint64_t eb_at(uint64_t n, uint64_t k)',
+    contract='''
+__CPROVER_requires(k <= g_N && n == k + g_no)
+__CPROVER_ensures(__CPROVER_return_value <= g_E)
+__CPROVER_ensures(k < g_L ==> __CPROVER_return_value <= g_ELM1)
+__CPROVER_ensures(k >= g_L ==> __CPROVER_return_value >= g_EL)
+__CPROVER_ensures(k == 0 ==> __CPROVER_return_value == 0)
+__CPROVER_assigns()
+''',
+    says='ASSUMED lookup contract of *edge_begin(k + nodeOffset) (local edge index where node k\'s edges begin): non-decreasing in k relative to the target probe, 0 for the first node, at most numEdges'))
+UNITS.append(Unit(
+    name='FileGraph_findIndex', src=FG_C,
+    anchor=r'size_t FileGraph::findIndex\(size_t nodeSize, size_t edgeSize, size_t targetSize,',
+    proto='size_t FileGraph_findIndex(size_t nodeSize, size_t edgeSize, size_t targetSize, size_t lb, size_t ub)',
+    contract='''
+__CPROVER_requires(PS_BOUNDS && PROBE_OK && nodeSize == 0 && edgeSize == 1 && g_nw == 0 && g_ew == 1 && fg.nodeOffset == g_no && g_eo == 0)
+__CPROVER_requires(lb <= ub && ub <= g_N)
+__CPROVER_ensures(lb <= __CPROVER_return_value && __CPROVER_return_value <= ub)
+__CPROVER_ensures(targetSize <= g_T ==> __CPROVER_return_value <= CLAMP(g_L, lb, ub))
+__CPROVER_ensures(targetSize >= g_T ==> __CPROVER_return_value >= CLAMP(g_L, lb, ub))
+__CPROVER_assigns()
+''',
+    prelude=[PS, FG], uses=['eb_at'],
+    lower=[members(['nodeOffset'], self='fg', arrow='.'),
+           rx(r'\*edge_begin\((mid) \+ fg.nodeOffset\)', r'eb_at(\1 + fg.nodeOffset, /*ghost k=*/ \1)', 1, 1)],
+    ghost_prefix='const uint64_t lb0 = lb, ub0 = ub;',
+    loops={1: '''
+__CPROVER_assigns(lb, ub)
+__CPROVER_loop_invariant(lb0 <= lb && lb <= ub && ub <= ub0)
+__CPROVER_loop_invariant(targetSize <= g_T ==> (lb == lb0 || lb <= g_L))
+__CPROVER_loop_invariant(targetSize >= g_T ==> (ub == ub0 || g_L <= ub))
+__CPROVER_decreases(ub - lb)
+'''},
+    backend='ib',
+    witness='g_N == 4 && g_E == 6 && g_no == 0 && g_eo == 0 && g_nw == 0 && g_ew == 1 && g_T == 3 && g_L == 2 && g_EL == 3 && g_ELM1 == 2 && g_k == 0 && g_Ek == 0 && lb == 0 && ub == 4 && targetSize == 3',
+    says='FileGraph::findIndex, for the weights (nodeSize 0, edgeSize 1) its only callers (divideByEdge) pass: returns the least local node whose first edge index reaches the target, clamped to [lb,ub]; terminates',
+    inst='nodeSize == 0, edgeSize == 1 (call-site derived: both calls in divideByEdge; symbolic weights timed out on every back end)',
+))
+# the edge cut points in machine (64-bit) arithmetic, as the code computes
+# them; lemma_de_spec shows they equal the 128-bit block_range spec (no
+# wrap-around) for numEdges <= 2^40, total <= 2^32.
+DE_SPEC = '''
+static inline uint64_t de_spec64(uint64_t E, uint64_t id, uint64_t total)
+{
+  uint64_t block = (E + total - 1) / total;
+  uint64_t x = block * id;
+  return x < E ? x : E;
+}
+'''
+UNITS.append(Unit(
+    name='lemma_de_spec', kind='contract', body_override='', prelude=[BR_SPEC, DE_SPEC],
+    proto='void lemma_de_spec(uint64_t E, uint64_t id, uint64_t total)',
+    contract='''
+__CPROVER_requires(E <= ((uint64_t)1 << 40) && total >= 1 && total <= UINT32_MAX && id <= total)
+__CPROVER_ensures((gv_u128)de_spec64(E, id, total) == br_spec_lo(E, id, total))
+__CPROVER_assigns()
+''', backend='ib', witness='E == 5 && id == 3 && total == 4',
+    says='the 64-bit edge cut point computed by divideByEdge equals the 128-bit block_range spec: no wrap-around'))
+UNITS.append(Unit(
+    name='FileGraph_divideByEdge', src=FG_C,
+    anchor=r'auto FileGraph::divideByEdge\(size_t, size_t, size_t id, size_t total\)',
+    proto='struct graph_range FileGraph_divideByEdge(size_t id, size_t total)',
+    contract='''
+__CPROVER_requires(PS_BOUNDS && PROBE_OK && g_nw == 0 && g_ew == 1 && fg.nodeOffset == g_no && g_eo == 0 && fg.numNodes == g_N && fg.numEdges == g_E)
+__CPROVER_requires(total >= 1 && total <= UINT32_MAX && id < total)
+__CPROVER_ensures(__CPROVER_return_value.second.first == de_spec64(fg.numEdges, id, total))
+__CPROVER_ensures(__CPROVER_return_value.second.second == de_spec64(fg.numEdges, id + 1, total))
+__CPROVER_ensures(__CPROVER_return_value.first.first <= __CPROVER_return_value.first.second && __CPROVER_return_value.first.second <= fg.numNodes)
+__CPROVER_assigns()
+''',
+    prelude=[BR_SPEC, DE_SPEC, PS, FG, 'struct graph_range { struct pair_u64 first, second; };\n#define GV_ID(x) (x)\n'],
+    uses=['FileGraph_findIndex'],
+    lower=[members(['numEdges', 'numNodes'], self='fg', arrow='.', minimum=4), casts(1), stdfn('std::min', 'gv_min_u64'),
+           rx(r'(?<![\w])findIndex\(', 'FileGraph_findIndex(', 2, 2),
+           dropcall('galois::gInfo'),
+           rx(r'\b(?:edge_)?iterator\(', 'GV_ID(', 4),
+           mkpair('NodeRange', 'struct pair_u64'), mkpair('EdgeRange', 'struct pair_u64'),
+           mkpair('GraphRange', 'struct graph_range')],
+    backend='ib', timeout=300, harness_pre='g_nw = 0; g_ew = 1; g_eo = 0;',
+    witness='g_N == 4 && g_E == 6 && g_no == 0 && g_eo == 0 && g_T == 3 && g_L == 2 && g_EL == 3 && g_ELM1 == 2 && g_k == 0 && g_Ek == 0 && id == 0 && total == 2',
+    says='edge pieces are [cut(id), cut(id+1)) for the 64-bit cut function de_spec64 (adjacent by syntactic identity of the shared cut; = the block_range spec by lemma_de_spec, hence ordered and an exact cover of [0,numEdges) by lemma_br_spec); each node piece is ordered and inside [0,numNodes) (adjacency of the NODE pieces of divideByEdge is not claimed: the probe posts timed out)',
+    replay=dict(prog='divide_by_edge', args=['id', 'total', 'g_E'], lib=True, sources=['libgalois/src/FileGraph.cpp'], cxxflags=['-fno-access-control']),
+))
+
+# ---------------------------------------------------------------------------
+# SpecificRange::block_pair (Range.h): a thread's piece of a global range,
+# clipped from a table of per-thread beginnings.
+SR = '''
+uint32_t g_tid, g_active;      /* ThreadPool::getTID(), runtime::activeThreads */
+uint64_t g_x;                  /* ghost probe ELEMENT of the global range */
+static inline uint32_t gv_getTID(void) { return g_tid; }
+struct SpecificRange { uint64_t global_begin, global_end; const uint32_t* thread_beginnings; };
+#define GV_DEREF(x) (x)
+#define TB(i) (self->thread_beginnings[i])
+'''
+UNITS.append(Unit(
+    name='SpecificRange_block_pair', src=RANGE, within=r'class SpecificRange\b',
+    anchor=r'std::pair<block_iterator, block_iterator> block_pair\(\) const',
+    proto='struct pair_u64 SpecificRange_block_pair(const struct SpecificRange* self)',
+    contract='''
+__CPROVER_requires(__CPROVER_is_fresh(self, sizeof(*self)) && g_active >= 1 && g_active <= 4096 && g_tid < g_active && __CPROVER_is_fresh(self->thread_beginnings, ((size_t)g_active + 1) * sizeof(uint32_t)))
+__CPROVER_requires(self->global_begin <= self->global_end && self->global_end <= UINT32_MAX)
+__CPROVER_requires(TB(g_tid) <= TB(g_tid + 1) && TB(0) <= TB(g_tid) && TB(g_tid + 1) <= TB(g_active))
+__CPROVER_ensures(__CPROVER_return_value.first <= __CPROVER_return_value.second)
+__CPROVER_ensures((TB(0) <= self->global_begin && self->global_end <= TB(g_active)) ==> (self->global_begin <= __CPROVER_return_value.first && __CPROVER_return_value.second <= self->global_end))
+__CPROVER_ensures((TB(g_tid) <= g_x && g_x < TB(g_tid + 1) && self->global_begin <= g_x && g_x < self->global_end) ==> (__CPROVER_return_value.first <= g_x && g_x < __CPROVER_return_value.second))
+__CPROVER_ensures(!(TB(g_tid) <= g_x && g_x < TB(g_tid + 1)) ==> !(__CPROVER_return_value.first <= g_x && g_x < __CPROVER_return_value.second))
+__CPROVER_ensures(!(self->global_begin <= g_x && g_x < self->global_end) ==> (!(__CPROVER_return_value.first <= g_x && g_x < __CPROVER_return_value.second) || (TB(g_active) == self->global_end && self->global_begin == 0)))
+__CPROVER_assigns()
+''',
+    prelude=[SR],
+    lower=[ren('substrate::ThreadPool::getTID', 'gv_getTID'), ren('runtime::activeThreads', 'g_active'),
+           members(['global_begin', 'global_end', 'thread_beginnings'], minimum=8),
+           rx(r'\*self->global_(begin|end)', r'GV_DEREF(self->global_\1)', 2, 2),
+           bind('iterator', 'uint64_t', 4),
+           mkpair('std::make_pair', 'struct pair_u64', 2)],
+    backend='sat',
+    inst='IterTy = boost::counting_iterator over unsigned integers (values as uint64_t)',
+    says='a thread\'s clipped piece is ordered and inside the global range; every element of the global range lies in the piece of exactly the thread whose table interval contains it and in no other thread\'s piece (disjoint + exact cover, given a monotone table spanning the range)',
+))
+
+# StandardRange::block_pair / LocalRange::block_pair forward to block_range
+# with (thread id, active threads); proved against block_range's CONTRACT.
+for cls, a1, a2, mem in [('StandardRange', 'ii', 'ei', ['ii', 'ei']), ('LocalRange', 'begin()', 'end()', None)]:
+    lw = [ren('galois::block_range', 'block_range_iter'), ren('substrate::ThreadPool::getTID', 'gv_getTID'), ren('activeThreads', 'g_active')]
+    if mem:
+        lw.append(members(mem, self='sr', arrow='.', minimum=2))
+    else:
+        lw += [rx(r'(?<![\w.])begin\(\)', 'sr.ii', 1, 1), rx(r'(?<![\w.])end\(\)', 'sr.ei', 1, 1)]
+    UNITS.append(Unit(
+        name=cls + '_block_pair', src=RANGE, within=r'class %s\b' % cls,
+        anchor=r'std::pair<block_iterator, block_iterator> block_pair\(\) const',
+        proto='struct pair_u64 %s_block_pair(void)' % cls,
+        contract='''
+__CPROVER_requires(sr.ii <= sr.ei && sr.ei - sr.ii <= ((uint64_t)1 << 62) && g_active >= 1 && g_tid < g_active)
+__CPROVER_ensures(sr.ii <= __CPROVER_return_value.first && __CPROVER_return_value.first <= __CPROVER_return_value.second && __CPROVER_return_value.second <= sr.ei)
+__CPROVER_ensures(__CPROVER_return_value.first - sr.ii == br_spec_lo((gv_u128)(sr.ei - sr.ii), g_tid, g_active))
+__CPROVER_ensures(__CPROVER_return_value.second - sr.ii == br_spec_lo((gv_u128)(sr.ei - sr.ii), g_tid + 1u, g_active))
+__CPROVER_assigns()
+''',
+        prelude=[BR_SPEC, '''
+uint32_t g_tid, g_active;      /* ThreadPool::getTID(), runtime::activeThreads */
+static inline uint32_t gv_getTID(void) { return g_tid; }
+struct StdRange { uint64_t ii, ei; } sr;   /* the range object (begin()/end() of the container for LocalRange) */
+'''],
+        uses=['block_range_iter'], backend='ib', lower=lw,
+        witness='sr.ii == 3 && sr.ei == 13 && g_active == 4 && g_tid == 1',
+        inst='iterator = random-access integer iterator; container begin()/end() as two integers for LocalRange',
+        says='the per-thread piece is block_range(begin, end, tid, activeThreads): by the block_range lemmas the threads\' pieces are disjoint, ordered and cover the range',
+    ))
